@@ -1125,7 +1125,7 @@ def script_sessions(ctx, prog, events, budget, depth_small, depth_big, stats=Non
     subsets = [[l] for l in lines]
     pairs = [[a, b] for i, a in enumerate(lines) for b in lines[i + 1:]]
     rng.shuffle(pairs)
-    subsets += pairs[:ctx.n(30, 600)]
+    subsets += pairs[:ctx.n(30, 120)]
     for _ in range(ctx.n(6, 40)):
         k = rng.randint(3, min(6, len(lines))) if len(lines) >= 3 else len(lines)
         subsets.append(sorted(rng.sample(lines, k)))
@@ -1761,7 +1761,7 @@ def run_families(ctx, n_mark, n_rich, n_script_gen, script_budget, depths, n_sha
 
 def correspond(ctx):
     programs, sprogs, cprogs, agg, failures, st, st_s, st_c = run_families(
-        ctx, ctx.n(30, 1200), ctx.n(24, 900), ctx.n(6, 60), ctx.n(1500, 12000), ctx.n((3, 4), (4, 5)), ctx.n(160, 4000))
+        ctx, ctx.n(30, 1200), ctx.n(24, 900), ctx.n(6, 30), ctx.n(1500, 5000), ctx.n((3, 4), (3, 5)), ctx.n(160, 4000))
     ctx.log("programs=%d eval_runs=%d dap_runs=%d stops=%d events=%d decision_cases=%d model_traces=%d vars=%d failing=%d failures=%d"
             % (st["programs"], st["eval_runs"], st["dap_runs"], st["stops"], st["events"], st["decision_cases"], st["model_traces"],
                st["vars_compared"], st["failing_programs"], len(failures)))
@@ -1845,7 +1845,7 @@ def search(ctx, broken):
     old = ctx.tier
     ctx.tier = "thorough"
     try:
-        programs, sprogs, cprogs, _, failures, st, st_s, st_c = run_families(ctx, 400, 300, 30, 6000, (4, 5), 1500)
+        programs, sprogs, cprogs, _, failures, st, st_s, st_c = run_families(ctx, 400, 300, 20, 4000, (3, 5), 1500)
     finally:
         ctx.tier = old
     out = []
@@ -1936,8 +1936,9 @@ META = {
                   "when continuing, at every event after the first hit under Into, at the next event of depth <= saved under Over and < saved "
                   "under Out. The real code is tied on every run: generated programs x {uninstrumented, 12 profile modes, statement hook, real "
                   "debug adapter attached / breakpoints on marker lines / Into / Over / Out / random command scripts / evaluate at each stop / "
-                  "constant conditions}; mixed command scripts (every sequence over Continue/Into/Over/Out up to depth 3-4 in the quick and 4-5 in "
-                  "the thorough tier x breakpoint subsets on nested-call programs, + random long scripts; Coq: stop_clears_step, "
+                  "constant conditions}; mixed command scripts (every sequence of up to 2 commands over Continue/Into/Over/Out + Continue for all "
+                  "breakpoint subsets of size 1-2 and sampled larger ones on nested-call programs, deepened to 3 and 4 (thorough: 5) commands "
+                  "within a session budget, + random long scripts; Coq: stop_clears_step, "
                   "stop_forgets_pending_step, continue_runs_to_breakpoints); conditional breakpoints and evaluate requests on programs whose "
                   "locals/parameters shadow module globals and whose frozen loaded functions have colliding globals (final module values "
                   "compared too): "
